@@ -140,6 +140,65 @@ const AFTER_USES: &[&str] = &[
     "{% macro later() %}{{ ns.o.revindex0 }}{{ ns.o() }}{% endmacro %}{{ later() }}", "{{ [ns.o, ns.o]|unique|list|length }}{{ {'k': ns.o}|items|list|length }}",
 ];
 
+/// loop controls in every statement position, legal or not: through up to two enclosing constructs,
+/// inside and outside loops of several kinds (where the grammar refuses them the load fails; where it
+/// accepts them the jump must land in the same evaluation)
+const CTL_OUTER: &[(&str, &str, &str)] = &[
+    ("no_loop", "", ""),
+    ("for", "{% for x in xs %}a", "c{% endfor %}"),
+    ("for_else", "{% for x in xs %}a", "c{% else %}e{% endfor %}"),
+    ("for_recursive", "{% for x in [[1, 2], 3] recursive %}a{{ loop(x) if x is iterable }}", "c{% endfor %}"),
+    ("for_filtered_in_for", "{% for y in [1, 2] %}{% for x in xs if x %}a", "c{% endfor %}d{% endfor %}"),
+    ("else_branch_of_for", "{% for x in [] %}{% else %}", "{% endfor %}"),
+    ("else_branch_of_inner_for", "{% for y in [1, 2] %}{% for x in [] %}{% else %}", "{% endfor %}d{% endfor %}"),
+];
+const CTL_SCOPED: &[(&str, &str, &str)] = &[
+    ("with", "{% with w = 1 %}", "{% endwith %}"),
+    ("set", "{% set cap %}", "{% endset %}{{ cap }}"),
+    ("filter", "{% filter upper %}", "{% endfilter %}"),
+    ("autoescape", "{% autoescape true %}", "{% endautoescape %}"),
+    ("if", "{% if xs %}", "{% endif %}"),
+    ("else_of_if", "{% if false %}{% else %}", "{% endif %}"),
+    ("call_body", "{% call cw() %}", "{% endcall %}"),
+    ("call_body_with_args", "{% call(q) cwa() %}", "{% endcall %}"),
+    ("macro_body", "{% macro inner() %}", "{% endmacro %}{{ inner() }}"),
+    ("block", "{% block bb %}", "{% endblock %}"),
+    ("inner_for", "{% for z in [1, 2] %}", "{% endfor %}"),
+];
+const CTL_FORMS: &[&str] = &["{% break %}", "{% continue %}", "{% if x == 2 %}{% break %}{% endif %}b", "{% if x == 2 %}{% continue %}{% endif %}b"];
+
+fn ctl_count() -> u64 {
+    let n = CTL_SCOPED.len() as u64;
+    (CTL_OUTER.len() * CTL_FORMS.len()) as u64 * (1 + n + n * n)
+}
+
+fn ctl_case(n: u64) -> (String, String) {
+    let ns = CTL_SCOPED.len() as u64;
+    let paths = 1 + ns + ns * ns;
+    let (oname, opre, opost) = CTL_OUTER[(n / paths / CTL_FORMS.len() as u64) as usize];
+    let form = CTL_FORMS[((n / paths) % CTL_FORMS.len() as u64) as usize];
+    let p = n % paths;
+    let seq: Vec<usize> = if p == 0 {
+        vec![]
+    } else if p <= ns {
+        vec![(p - 1) as usize]
+    } else {
+        vec![((p - 1 - ns) / ns) as usize, ((p - 1 - ns) % ns) as usize]
+    };
+    let mut src = String::from("{% macro cw() %}{{ caller() }}{{ caller() }}{% endmacro %}{% macro cwa() %}{{ caller(1) }}{% endmacro %}");
+    src.push_str(opre);
+    for i in &seq {
+        src.push_str(CTL_SCOPED[*i].1);
+    }
+    src.push_str(form);
+    for i in seq.iter().rev() {
+        src.push_str(CTL_SCOPED[*i].2);
+    }
+    src.push_str(opost);
+    src.push_str("{{ x }}|end");
+    (format!("{} [{}] {}", oname, seq.iter().map(|i| CTL_SCOPED[*i].0).collect::<Vec<_>>().join(">"), form), src)
+}
+
 fn after_case(n: u64) -> String {
     let (_, maker) = AFTER_MAKERS[(n as usize) / AFTER_USES.len()];
     format!("{{% set ns = namespace(o=none) %}}{}{}", maker, AFTER_USES[(n as usize) % AFTER_USES.len()])
@@ -151,6 +210,9 @@ const COMPOSE_INNER: &[&str] = &[
     "{{ super() }}", "{{ self.b() }}", "{{ self.nope() }}", "{{ caller() }}", "{{ loop }}{{ loop.index }}", "{{ loop([1]) }}", "{% block b %}{{ super() }}{% endblock %}", "{% block other %}{{ super() }}{{ self.b() }}{% endblock %}",
     "{% extends 'host' %}", "{% extends 'leaf' %}{% block b %}{{ super() }}{% endblock %}", "{{ varargs }}{{ kwargs }}", "{% macro im() %}{{ super() }}{{ caller() }}{{ self.b() }}{% endmacro %}{{ im() }}",
     "{% include 'leaf' %}{{ super() }}", "{% set x = super %}{{ x() }}", "{% for q in [1] %}{{ super() }}{{ loop.index }}{% endfor %}",
+    // a recursive loop of the host re-entered from the other template's code, at several offsets of it
+    "<{{ loop([2]) if i == 1 }}>", "<{{ loop([2]) if i is iterable }}>", "{{ 'aaaa' }}{{ 'bbbb' }}{% for q in [1, 2] %}{{ q }}{% endfor %}<{{ loop([2]) if i is iterable }}>", "{% set l = loop %}{{ l([[3]]) if i is iterable }}{{ l.depth }}",
+    "{% macro im(l) %}[{{ l([2]) if l }}]{% endmacro %}{{ im(loop) }}", "{% macro im(l) %}{{ 1 + 2 }}{% for q in [1] %}{{ l([3]) if l }}{% endfor %}{% endmacro %}", "{% if i is iterable %}{% for q in [1] %}{{ loop.index }}{% endfor %}{{ loop(i) }}{{ loop(i) }}{% endif %}",
 ];
 const COMPOSE_PLACES: &[(&str, &str)] = &[
     ("top", "@"),
@@ -160,10 +222,15 @@ const COMPOSE_PLACES: &[(&str, &str)] = &[
     ("in_call_block", "{% macro hw() %}{{ caller() }}{% endmacro %}{% call hw() %}@{% endcall %}"),
     ("in_loop", "{% for i in [1, 2] %}@{% endfor %}"),
     ("in_recursive_loop", "{% for i in [[1]] recursive %}@{% if i is iterable %}{{ loop(i) }}{% endif %}{% endfor %}"),
+    ("in_recursive_loop_of_scalars", "{% for i in [1] recursive %}{{ i }}@{% endfor %}"),
+    ("in_recursive_loop_after_text", "some text {{ 1 }}{{ 2 }}{% for i in [1, [4]] recursive %}@{% endfor %}"),
     ("in_block_in_loop", "{% for i in [1] %}{% block b %}@{% endblock %}{% endfor %}"),
     ("in_set_block", "{% set cap %}@{% endset %}{{ cap }}"),
 ];
-const COMPOSE_VIA: &[&str] = &["{% include 'inner' %}", "{% import 'inner' as m %}{{ m }}", "{% from 'inner' import im %}{{ im() if im is defined }}", "{% include ['nope', 'inner'] %}{% include 'inner' %}"];
+const COMPOSE_VIA: &[&str] = &[
+    "{% include 'inner' %}", "{% import 'inner' as m %}{{ m }}", "{% from 'inner' import im %}{{ im() if im is defined }}", "{% include ['nope', 'inner'] %}{% include 'inner' %}",
+    "{% from 'inner' import im %}{{ im(loop) if im is defined }}", "{% import 'inner' as m %}{{ m.im(loop) if m.im is defined }}",
+];
 
 fn compose_case(n: u64) -> Vec<(String, String)> {
     let n = n as usize;
@@ -504,6 +571,9 @@ fn run_case(family: &str, n: u64, cc: &mut ChildCtx) {
         "afterlife" => {
             exercise_template(env, &after_case(n), &ctx, cc);
         }
+        "controls" => {
+            exercise_template(env, &ctl_case(n).1, &ctx, cc);
+        }
         "compose" => {
             let mut e2 = base_env();
             let mut ok = true;
@@ -577,6 +647,7 @@ fn describe(family: &str, n: u64) -> String {
         "counts" => format!("{} x{} :: {}", COUNT_KINDS[(n as usize) / COUNT_NS.len()], COUNT_NS[(n as usize) % COUNT_NS.len()], count_case(n).chars().take(300).collect::<String>()),
         "big_lazy" => format!("{{{{ {}|{} }}}}", BIG_LAZY_RECEIVERS[(n as usize) / BIG_LAZY_FILTERS.len()], BIG_LAZY_FILTERS[(n as usize) % BIG_LAZY_FILTERS.len()]),
         "afterlife" => format!("{} :: {}", AFTER_MAKERS[(n as usize) / AFTER_USES.len()].0, after_case(n)),
+        "controls" => format!("{} :: {}", ctl_case(n).0, ctl_case(n).1),
         "accumulate" => format!("{} x{} :: {}", ACC_STEPS[(n as usize) / ACC_COUNTS.len()].0, ACC_COUNTS[(n as usize) % ACC_COUNTS.len()], acc_case(n)),
         _ => String::new(),
     }
@@ -677,6 +748,9 @@ pub fn main(args: Args) -> i32 {
     shards.extend(crash::shards_for("depth", ndepth, 1, "main", "debug"));
     let nesc = ranked_total(if quick { 3 } else { 4 }, ESCAPES.len() as u64);
     shards.extend(crash::shards_for("escapes", nesc, 20_000, "2m", "release"));
+    shards.extend(crash::shards_for("controls", ctl_count(), 200, "2m", "release"));
+    shards.extend(crash::shards_for("controls", ctl_count(), 200, "2m", "debug"));
+    acc.count("cases_controls", ctl_count() * 2);
     let nafter = (AFTER_MAKERS.len() * AFTER_USES.len()) as u64;
     shards.extend(crash::shards_for("afterlife", nafter, 100, "2m", "release"));
     shards.extend(crash::shards_for("afterlife", nafter, 100, "2m", "debug"));
